@@ -49,6 +49,8 @@ class World:
         make(d, h(f), owner)             # valid signature, parent is the forged token
 
     def fresh(self, ucap):
+        self.decoy = self.TokenTree(public_key=self.other.pub())    # the view of another key's tree (see gather)
+        self.decoy.unchained_max_size = ucap
         t = self.TokenTree(public_key=self.owner.pub())
         t.unchained_max_size = ucap
         return t
@@ -59,6 +61,11 @@ class World:
         tok = self.Token(src.previous_token_hash, content_hash=src.content_hash, signature=src.signature)
         if wc:
             tok.receive_content(self.content[t])
+        # tokens carry no key: a receiver offers one and the same object to the views of several trees. The view of the
+        # OTHER key sees it first here; whatever that tree concludes must not influence the tree under test.
+        self.n_offer = getattr(self, "n_offer", 0) + 1
+        if self.n_offer % 2:
+            self.decoy.gather_token(tok)
         return tree.gather_token(tok)
 
     def project(self, tree):
@@ -250,7 +257,7 @@ def run(tier, seed, replay=None):
 
     if tier == "quick":
         replay_graph(ctx, "TokenTree_n4.cfg", 4, 6, None, keys, "n4")
-        replay_graph(ctx, "TokenTree_content.cfg", 3, 1, 150000, keys, "content")
+        replay_graph(ctx, "TokenTree_content.cfg", 3, 1, 40000, keys, "content")
         r5 = run_tlc("TokenTree.tla", "TokenTree_n5.cfg")
         ctx.add_tlc("n5", r5)
         if not r5.ok:
